@@ -82,12 +82,12 @@ def p10_accept_loop(ctx):
     hbb, ho = hagg
     fm = ho[4]
     lc = peel_var(fm.get("limit_connections", ("unknown", "")))
-    good = lc[0] == "call" and lc[1] and lc[1].endswith("clone") and (access_path(lc[2][0]) or "").endswith("self.limit_connections") or (fm.get("limit_connections", ("",))[0] == "clone" and (access_path(fm["limit_connections"]) or "").endswith("self.limit_connections"))
+    good = (lc[0] == "call" and lc[1] and lc[1].endswith("clone") and (access_path(lc[2][0]) or "").endswith("self.limit_connections")) or (lc[0] == "clone" and (access_path(lc) or "").endswith("self.limit_connections"))
     r.add(f, "Handler.limit_connections = clone of the listener's semaphore", bool(good), where(b, hbb), origin_str(fm.get("limit_connections", ("unknown", "missing"))))
     sh = peel_var(fm.get("shutdown", ("unknown", "")))
     good = is_call_origin(sh, "Shutdown::new") and is_call_origin(peel(sh[2][0]), "Sender::subscribe") and (access_path(peel(sh[2][0])[2][0]) or "").endswith("self.notify_shutdown")
     r.add(f, "Handler.shutdown = Shutdown::new(self.notify_shutdown.subscribe())", good, where(b, hbb), origin_str(sh))
-    sc = fm.get("_shutdown_complete", ("unknown", ""))
+    sc = peel_var(fm.get("_shutdown_complete", ("unknown", "")))
     good = sc[0] == "clone" and (access_path(sc) or "").endswith("self.shutdown_complete_tx")
     r.add(f, "Handler._shutdown_complete = clone of shutdown_complete_tx", good, where(b, hbb), origin_str(sc))
     cn = peel_var(fm.get("connection", ("unknown", "")))
